@@ -13,8 +13,14 @@
     - persistence = autobatch buffer over the durable datastore; [FCrash] loses the buffer, [FRestart] = [Close] (flush)
       followed by a fresh instance; both abandon all running calls and sessions.
 
-    [cfg] selects the code variant: [fixed_cfg] is the repaired code (branches fix-c03-1, fix-c03-2) that /verif follows;
-    [orig_cfg] is the code before the two repairs and is only used to document what they repaired.
+    - the datastore can FAIL: [FLoadFail] = the [Get] of the previous result returns an error other than ErrNotFound (an I/O
+      error, or a context-aware datastore looking at a context that is already done); [FStoreFail] / [FRespFail] = the
+      [Put]/[Flush] of [storeResult] fails at the eager persist of a fresh draw / at the persist after a getter answer, at one
+      of the points where autobatch can fail ([sfail]); every one of them makes the call return that error.
+
+    [cfg] selects the code variant: [fixed_cfg] is the repaired code (branches fix-c03-1, fix-c03-2, fix-c03-3) that /verif
+    follows; [keepbuf_cfg] is the code before fix-c03-3 (a failed write stays in the write buffer), [orig_cfg] the code before
+    all repairs; both are only used to document what the repairs repaired (and to tie a tree that lacks fix-c03-3).
 
     No proofs here (SamplingProofs.v, SessionProofs.v). The harness
     harness/share/availability/light/zz_verif_c03_test.go drives the real code; [mismatches] diffs. *)
@@ -132,9 +138,12 @@ Inductive tstate :=
 | TRel (c : N) (v : verdict) | TDel (c : N) (v : verdict) | TDone (v : verdict).
 
 (** * State *)
-Record cfg := mkcfg { c_persist_draw : bool; c_flush : bool; c_batch : nat }.
-Definition fixed_cfg : cfg := mkcfg true true 2048.
-Definition orig_cfg : cfg := mkcfg false false 2048.
+Record cfg := mkcfg { c_persist_draw : bool; c_flush : bool; c_batch : nat; c_drop : bool }.
+  (* fix-c03-1: the draw is persisted before it is requested; fix-c03-2: every write is flushed; write-batch size;
+     fix-c03-3: a failed write is dropped from the write buffer *)
+Definition fixed_cfg : cfg := mkcfg true true 2048 true.
+Definition keepbuf_cfg : cfg := mkcfg true true 2048 false.
+Definition orig_cfg : cfg := mkcfg false false 2048 false.
 
 Record state := mkst {
   s_count : Z;                          (* params.SampleAmount of the running instance *)
@@ -168,6 +177,34 @@ Definition ds_put (cf : cfg) (s : state) (k : N) (v : result) : state :=
   let s1 := set_store s (s_disk s) (mset k v (s_buf s)) in
   let s2 := if (c_batch cf <? length (s_buf s1))%nat then ds_flush s1 else s1 in
   if c_flush cf then ds_flush s2 else s2.
+
+(** * Datastore faults.
+    [storeResult] = autobatch [Put] (buffer the entry; above the threshold: [Flush]) followed by an explicit [Flush];
+    [Flush] = child.Batch(), one batch.Put per buffered entry, buffer := empty, batch.Commit(). Where it can fail:
+    - [SfEarly]: in the first flush that runs, before the buffer is emptied (Batch() or a batch.Put fails): nothing becomes
+      durable, the buffer keeps everything incl. the new entry;
+    - [SfCommit]: in the first flush that runs, at Commit: nothing becomes durable (a failed commit writes nothing), the
+      buffer is already empty — the new entry and whatever else was buffered is gone;
+    - [SfSecond]: the first flush went through, a second one (explicit Flush after a threshold flush; over an empty buffer)
+      fails: everything is durable, the call still returns the error.
+    With fix-c03-3 ([c_drop]) the write buffer is emptied after any failed write. *)
+Inductive sfail := SfEarly | SfCommit | SfSecond.
+
+Definition ds_put_fail (cf : cfg) (s : state) (k : N) (v : result) (o : sfail) : state :=
+  let s1 := set_store s (s_disk s) (mset k v (s_buf s)) in
+  let s2 := match o with
+            | SfEarly => s1
+            | SfCommit => set_store s1 (s_disk s1) []
+            | SfSecond => ds_flush s1
+            end in
+  if c_drop cf then set_store s2 (s_disk s2) [] else s2.
+
+(** autobatch.Get answers from the buffer without touching the child datastore: such a load cannot fail *)
+Definition buffered (s : state) (k : N) : bool := match mget k (s_buf s) with Some _ => true | None => false end.
+
+(** the error of the datastore is what the call returns (wrapped with %w by storeResult) *)
+Definition fault_verdict (e : errclass) : verdict :=
+  match e with ECanceled => VCanceled | EDeadline => VDeadline | _ => VErr end.
 
 Definition total_ok (count w : Z) (res : result) : bool :=
   let t := Z.of_nat (length (r_rem res) + length (r_avail res)) in (t =? count) || (t =? w * w).
@@ -219,13 +256,29 @@ Definition step_resp (cf : cfg) (s : state) (t : N) (h : hdr) (c : N) (res : res
          set_thr s1 t (h, TRel c v)
   end.
 
+(** the same, but [storeResult] fails ([o]) with an error of class [e]: that error is the verdict *)
+Definition step_resp_fail (cf : cfg) (s : state) (t : N) (h : hdr) (c : N) (res : result) (r : response)
+           (o : sfail) (e : errclass) : state :=
+  match rs_slots r with
+  | [] => set_thr s t (h, TRel c VNotAvailable)
+  | _ :: _ =>
+    if (length (r_rem res) <? length (rs_slots r))%nat then set_thr s t (h, TRel c VPanic)
+    else let af := split_resp (r_rem res) (rs_slots r) in
+         let res' := mkres (r_avail res ++ fst af) (snd af) in
+         let s1 := ds_put_fail cf (add_served s (served_of (hr h) (r_rem res) (rs_slots r))) (hr h) res' o in
+         set_thr s1 t (h, TRel c (fault_verdict e))
+  end.
+
 Inductive fev :=
 | FCall (t : N) (h : hdr)
 | FStep (t : N) (bs : list Z) (order : list coord)
 | FResp (t : N) (r : response)
 | FAbort (t : N) (e : errclass)
 | FCrash (count : Z)
-| FRestart (count : Z).
+| FRestart (count : Z)
+| FLoadFail (t : N) (e : errclass)                            (* ds.Get of the previous result fails (not ErrNotFound) *)
+| FStoreFail (t : N) (o : sfail) (e : errclass)               (* the eager persist of a fresh draw fails *)
+| FRespFail (t : N) (r : response) (o : sfail) (e : errclass). (* the getter answers, the persist of the new result fails *)
 
 Definition new_instance (s : state) (count : Z) : state :=
   mkst count (s_disk s) [] [] (s_closed s) (s_next s) [] (s_served s).
@@ -238,6 +291,15 @@ Definition fstep (cf : cfg) (s : state) (e : fev) : state :=
   | FAbort t e => match mget t (s_thr s) with Some (h, TWait _) => set_thr s t (h, TDone (abort_verdict e)) | _ => s end
   | FCrash n => new_instance s n
   | FRestart n => new_instance (ds_flush s) n
+  | FLoadFail t e => match mget t (s_thr s) with
+                     | Some (h, TLoad c) => if buffered s (hr h) then s else set_thr s t (h, TRel c (fault_verdict e))
+                     | _ => s
+                     end
+  | FStoreFail t o e => match mget t (s_thr s) with
+                        | Some (h, TStore c res) => set_thr (ds_put_fail cf s (hr h) res o) t (h, TRel c (fault_verdict e))
+                        | _ => s
+                        end
+  | FRespFail t r o e => match mget t (s_thr s) with Some (h, TReq c res) => step_resp_fail cf s t h c res r o e | _ => s end
   end.
 
 Definition frun (cf : cfg) (s : state) (es : list fev) : state := fold_left (fstep cf) es s.
@@ -245,10 +307,17 @@ Definition frun (cf : cfg) (s : state) (es : list fev) : state := fold_left (fst
 (** * Coarse events = what the harness can schedule and observe on the real code *)
 Inductive obs := OBlocked | OInGetter (cs : list coord) | OReturned (v : verdict) | OAny.
 
+(** the datastore fault observed while a coarse event ran (at most one: the call returns with it): the load, or the store
+    ([order] = the order in which a fresh draw left the Go map, read back from the datastore when the draw survived) *)
+Inductive cfault := CfLoad (e : errclass) | CfStore (o : sfail) (e : errclass) (order : list coord).
+
 Inductive cev :=
 | CCall (t : N) (hi : nat) (bs : list Z) (o : obs)    (* start the call for header number [hi], let it run until it blocks or returns *)
 | CWake (t : N) (bs : list Z) (o : obs)               (* a call that waited for the session got it and ran on *)
 | CResp (t : N) (r : response) (o : obs)              (* the getter answers call [t], which then runs to its end *)
+| CCallF (t : N) (hi : nat) (bs : list Z) (fl : cfault) (o : obs)   (* the same three, with a datastore fault on the way *)
+| CWakeF (t : N) (bs : list Z) (fl : cfault) (o : obs)
+| CRespF (t : N) (r : response) (fl : cfault) (o : obs)
 | CAbort (t : N) (e : errclass) (o : obs)             (* the context of a waiting call is done *)
 | CCrash (count : Z)
 | CRestart (count : Z)
@@ -266,6 +335,21 @@ Fixpoint advance (cf : cfg) (fuel : nat) (s : state) (t : N) (bs : list Z) (orde
   match fuel with
   | O => s
   | S f => if settled s t then s else advance cf f (fstep cf s (FStep t bs order)) t bs order
+  end.
+
+(** the event with which call [t] moves on when datastore fault [fl] is scheduled for it *)
+Definition fault_event (s : state) (t : N) (bs : list Z) (order : list coord) (fl : cfault) : fev :=
+  match mget t (s_thr s), fl with
+  | Some (h, TLoad _), CfLoad e => if buffered s (hr h) then FStep t bs order else FLoadFail t e
+  | Some (_, TLoad _), CfStore _ _ ord => FStep t bs ord
+  | Some (_, TStore _ _), CfStore o e _ => FStoreFail t o e
+  | _, _ => FStep t bs order
+  end.
+
+Fixpoint advance_f (cf : cfg) (fuel : nat) (s : state) (t : N) (bs : list Z) (order : list coord) (fl : cfault) : state :=
+  match fuel with
+  | O => s
+  | S f => if settled s t then s else advance_f cf f (fstep cf s (fault_event s t bs order fl)) t bs order fl
   end.
 
 Definition status (s : state) (t : N) : obs :=
@@ -313,6 +397,15 @@ Definition cstep (cf : cfg) (hs : list hdr) (s : state) (e : cev) : state * bool
     end
   | CWake t bs o => let s' := advance cf 12 s t bs (order_of o) in (s', obs_match (status s' t) o)
   | CResp t r o => let s' := advance cf 12 (fstep cf s (FResp t r)) t [] [] in (s', obs_match (status s' t) o)
+  | CCallF t hi bs fl o =>
+    match nth_error hs hi with
+    | None => (s, false)
+    | Some h => let s' := advance_f cf 12 (fstep cf s (FCall t h)) t bs (order_of o) fl in (s', obs_match (status s' t) o)
+    end
+  | CWakeF t bs fl o => let s' := advance_f cf 12 s t bs (order_of o) fl in (s', obs_match (status s' t) o)
+  | CRespF t r fl o =>
+    let e := match fl with CfStore so se _ => FRespFail t r so se | CfLoad _ => FResp t r end in
+    let s' := advance cf 12 (fstep cf s e) t [] [] in (s', obs_match (status s' t) o)
   | CAbort t e o => let s' := fstep cf s (FAbort t e) in (s', obs_match (status s' t) o)
   | CCrash n => (fstep cf s (FCrash n), true)
   | CRestart n => (fstep cf s (FRestart n), true)
@@ -329,10 +422,11 @@ Fixpoint crun (cf : cfg) (hs : list hdr) (s : state) (es : list cev) : bool :=
   | e :: es' => let (s', ok) := cstep cf hs s e in ok && crun cf hs s' es'
   end.
 
-(** one correspondence case: write-batch size of the instance, initial sample count, the headers, observed history *)
-Definition case := (nat * Z * list hdr * list cev)%type.
+(** one correspondence case: write-batch size of the instance, whether the tree under test drops a failed write from the
+    write buffer (fix-c03-3; probed by the harness on the real code), initial sample count, the headers, observed history *)
+Definition case := (nat * bool * Z * list hdr * list cev)%type.
 Definition agree (c : case) : bool :=
-  match c with (batch, count, hs, es) => crun (mkcfg true true batch) hs (init count) es end.
+  match c with (batch, drop, count, hs, es) => crun (mkcfg true true batch drop) hs (init count) es end.
 
 (** short names for the generated case files (Coq spends its time parsing them) *)
 Definition F : slot := SFull true.
